@@ -150,11 +150,25 @@ def main(argv):
                     else:
                         tie_breaks.append((flavor, case, d))
                 elif ist == "hang":
-                    stats["impl_hang"] += 1
                     if mres[0] == "ok" and any(o["S"] == "HANG" for o in mres[1]):
+                        stats["impl_hang"] += 1
                         stats["hang_agree"] += 1
                     else:
-                        tie_breaks.append((flavor, case, {"step": -1, "fields": ["hang"], "impl": "hang", "model": "terminates"}))
+                        # the model terminates: rule out a slow machine before calling it a disagreement
+                        ist2, iobs2 = core._impl_worker((flavor, case, 60))
+                        if ist2 == "ok":
+                            stats["slow_cases_retried"] += 1
+                            d = modelio.diff_obs(iobs2, mres[1][:len(iobs2)], flavor) if mres[0] == "ok" and oracles.first_illegal(case, iobs2) is None else None
+                            if d is None:
+                                stats["traces_validated_against_impl"] += 1
+                            else:
+                                tie_breaks.append((flavor, case, d))
+                            probs2 = props.run_oracles(prop, case, ist2, iobs2, flavor)
+                            if [p for p in probs2 if not any(classify(f, p, case, flavor) for f in open_f)]:
+                                oracle_fails.append((flavor, case, probs2))
+                        else:
+                            stats["impl_hang"] += 1
+                            tie_breaks.append((flavor, case, {"step": -1, "fields": ["hang"], "impl": "hang", "model": "terminates"}))
                 elif ist == "crash":
                     stats["impl_crash"] += 1
                     tie_breaks.append((flavor, case, {"step": -1, "fields": ["crash"], "impl": iobs, "model": mres[0]}))
